@@ -147,6 +147,11 @@ impl ProgressStyle {
             "at least 2 progress chars required"
         );
         self.char_width = width(&self.progress_chars);
+        // A bar cannot be built from clusters that occupy no columns (format_bar divides by the width)
+        assert!(
+            self.char_width > 0,
+            "progress chars must not be zero-width"
+        );
         self
     }
 
